@@ -153,7 +153,20 @@ def walk_dir(stmts, inc, d):
 INC_SPELLINGS = ["{n}.mac", "./{n}.mac", "sub/../{n}.mac"]
 
 
-def render(files, inc, base=None, late=None):
+def upcase(text):
+    """the text in upper case except for what stands between double quotes (strings, file names): symbols, mnemonics, registers and
+    directives are case-insensitive"""
+    out, inq = [], False
+    for ch in text:
+        if ch == '"':
+            inq = not inq
+        elif ch == "\n":
+            inq = False
+        out.append(ch if inq else ch.upper())
+    return "".join(out)
+
+
+def render(files, inc, base=None, late=None, vary_case=False):
     """-> (sources [(name, text)], fs dict or None).  base: harness link base (a `.link` the harness adds).
     Rendering choices that do not change the meaning are varied deterministically with the program: the harness `.link` stands
     at the start, or (when the program has no '. =' and sets no base itself) at the very end, or is omitted for the default base
@@ -199,6 +212,8 @@ def render(files, inc, base=None, late=None):
             for s in f["body"]:
                 lines += stmt(s, plain)
             fs[inc_path(f)] = "\n".join(lines) + "\n"
+            if vary_case and (h + len(f["name"]) + inc.index(f)) % 3 == 0:
+                fs[inc_path(f)] = upcase(fs[inc_path(f)])
         fs["sub/.keep"] = ""
     srcs = []
     if files and len(files[-1]) == 1 and files[-1][0]["k"] == "linkinc" and link_at == "end":
@@ -222,7 +237,10 @@ def render(files, inc, base=None, late=None):
                 lines.append("\t.link %o" % base)
         if i == len(files) - 1 and base is not None and link_at == "end":
             lines.append("\t.link %o" % base)
-        srcs.append((f"f{i + 1}.mac", "\n".join(lines) + "\n"))
+        text = "\n".join(lines) + "\n"
+        if vary_case and (h + i) % 2 == 1:
+            text = upcase(text)           # every other file spells everything in upper case (names are case-insensitive)
+        srcs.append((f"f{i + 1}.mac", text))
     return srcs, (fs if used_fs else None)
 
 
@@ -265,7 +283,7 @@ def replay(task):
             variants.append((run, None, None))
     done = set()
     for run, base, late in variants:
-        srcs, fs = render(rec["files"], inc, base, late)
+        srcs, fs = render(rec["files"], inc, base, late, vary_case=opts.get("vary_case", False))
         key = repr(srcs)
         if key in done:
             continue
@@ -289,7 +307,7 @@ def replay(task):
                     p = {"kind": "listing", "what": "listing not understood: " + repr(r["listing"])[:300]}
                 else:
                     want = sorted((y["file"] + ".mac", y["name"], y["value"]) for y in run["syms"])
-                    got = sorted((f.rsplit("/", 1)[-1], n, v) for f, ys in lst.items() for n, v in ys)
+                    got = sorted((f.rsplit("/", 1)[-1], (n.lower() if opts.get("vary_case") else n), v) for f, ys in lst.items() for n, v in ys)
                     if want != got:
                         p = {"kind": "symbols", "what": f"symbol values: predicted {want}, listed {got}"}
         else:
